@@ -23,12 +23,14 @@ const (
 	chanCapHeap    = "HC!chan.cap"
 	chanSendsHeap  = "HC!chan.sends"
 	chanClosedHeap = "HC!chan.closed"
+	chanRecvsHeap  = "HC!chan.recvs" // receives completed by the thread under verification
 )
 
 func (g *VCGen) chanHeaps() {
 	g.so.heap(chanCapHeap, "(Array Int Int)")
 	g.so.heap(chanSendsHeap, "(Array Int Int)")
 	g.so.heap(chanClosedHeap, "(Array Int Bool)")
+	g.so.heap(chanRecvsHeap, "(Array Int Int)")
 }
 
 func (concurrencyModel) goInstr(g *VCGen, x *ssa.Go) {
@@ -51,6 +53,7 @@ func (concurrencyModel) makeChan(g *VCGen, x *ssa.MakeChan) {
 	g.setHeap(g.cur, chanCapHeap, fmt.Sprintf("(store %s %s %s)", g.heapTerm(g.cur, chanCapHeap), r, size.T))
 	g.setHeap(g.cur, chanSendsHeap, fmt.Sprintf("(store %s %s 0)", g.heapTerm(g.cur, chanSendsHeap), r))
 	g.setHeap(g.cur, chanClosedHeap, fmt.Sprintf("(store %s %s false)", g.heapTerm(g.cur, chanClosedHeap), r))
+	g.setHeap(g.cur, chanRecvsHeap, fmt.Sprintf("(store %s %s 0)", g.heapTerm(g.cur, chanRecvsHeap), r))
 	g.vals[x] = SpecVal{r, "Int", x.Type()}
 }
 
@@ -99,6 +102,11 @@ func (concurrencyModel) recv(g *VCGen, x *ssa.UnOp) {
 		g.assumeHere(g.allocFact(sv.T, x.Type(), g.cur))
 	}
 	g.pathCond = and(g.pathCond, fmt.Sprintf("(not (= %s 0))", ch.T))
+	g.chanHeaps()
+	{
+		h := g.heapTerm(g.cur, chanRecvsHeap)
+		g.setHeap(g.cur, chanRecvsHeap, fmt.Sprintf("(store %s %s (+ (select %s %s) 1))", h, ch.T, h, ch.T))
+	}
 	g.usedTrusted["channel receive yields an arbitrary value of the element type; blocking is not modelled (partial correctness)"] = true
 	// a channel nobody ever sends on: a completed receive means it has been closed (and closed is stable)
 	if key := chanFieldKey(x.X); key != "" && g.eng.contracts.NeverSent[key] {
@@ -195,6 +203,8 @@ func (cm concurrencyModel) selectI(g *VCGen, x *ssa.Select) {
 			notClosed = append(notClosed, fmt.Sprintf("(or (= %s 0) (not (select %s %s)))", ch.T, g.heapTerm(g.cur, chanClosedHeap), ch.T))
 			// a receive completes only if the channel is closed or something was ever sent on it
 			g.assumeHere(fmt.Sprintf("(=> %s (or (select %s %s) (> (select %s %s) 0)))", chosen, g.heapTerm(g.cur, chanClosedHeap), ch.T, g.heapTerm(g.cur, chanSendsHeap), ch.T))
+			rh := g.heapTerm(g.cur, chanRecvsHeap)
+			g.setHeap(g.cur, chanRecvsHeap, fmt.Sprintf("(ite %s (store %s %s (+ (select %s %s) 1)) %s)", chosen, rh, ch.T, rh, ch.T, rh))
 		} else {
 			g.val(st.Send)
 			cm.sendEffect(g, ch.T, st.Chan.Name(), x.Pos(), chosen)
